@@ -60,7 +60,7 @@ func (tc *typechecker) templateFileToPackage(tree *ast.Tree) {
 			nodes = append(nodes, n.Nodes...)
 		case *ast.Using:
 			iteaName := tc.compilation.generateIteaName()
-			iteaDeclaration, statement := tc.explodeUsingStatement(n, iteaName)
+			iteaDeclaration, statement := tc.explodeUsingStatement(n, iteaName, tree.Path)
 			nodes = append(nodes, iteaDeclaration, statement)
 			if iteaToDeclarations == nil {
 				iteaToDeclarations = map[string][]*ast.Identifier{}
@@ -733,7 +733,7 @@ nodesLoop:
 
 			iteaName := tc.compilation.generateIteaName()
 
-			iteaDeclaration, statement := tc.explodeUsingStatement(node, iteaName)
+			iteaDeclaration, statement := tc.explodeUsingStatement(node, iteaName, tc.path)
 
 			// Type check the dummy assignment of the 'using' statement, along
 			// with its content, and transform the tree.
@@ -1349,8 +1349,9 @@ func (tc *typechecker) checkTypeDeclaration(node *ast.TypeDeclaration) (string, 
 	}
 }
 
-// explodeUsingStatement explodes an 'using' statement.
-func (tc *typechecker) explodeUsingStatement(using *ast.Using, iteaIdent string) (*ast.Var, ast.Node) {
+// explodeUsingStatement explodes an 'using' statement. path is the path of the
+// file that contains the statement.
+func (tc *typechecker) explodeUsingStatement(using *ast.Using, iteaIdent string, path string) (*ast.Var, ast.Node) {
 
 	// Make the type explicit, if necessary.
 	if using.Type == nil {
@@ -1386,6 +1387,7 @@ func (tc *typechecker) explodeUsingStatement(using *ast.Using, iteaIdent string)
 	)
 	uc := usingCheck{
 		itea: iteaDeclaration,
+		path: path,
 		pos:  using.Position,
 		typ:  using.Type,
 	}
